@@ -162,9 +162,10 @@ def Query.flipPlan (q : Query) : Bool :=
 def frameProj (ke ka kb : Bool) : List Sql.Expr :=
   ([(ke, edgeComposite), (ka, nodeCompositeOf "n0"), (kb, nodeCompositeOf "n1")].filter (·.1)).map (·.2)
 
-/-- the statement with the join order given (`flip` = the right node is joined first) and with (`prune`, the optimised translator) or
-without (the unoptimised one) the lowering ProjectionPruning: the frame projects only the bindings that are read / all three -/
-def Query.trWith (km : KindMap) (q : Query) (flip prune : Bool) : Option Sql.Stmt :=
+/-- the statement with the join order given (`flip` = the right node is joined first), with (`prune`, the optimised translator) or without
+(the unoptimised one) the lowering ProjectionPruning — the frame projects only the bindings that are read / all three — and with the LIMIT
+expressions of the frame (`fl`, set by the lowering LimitPushdown) and of the statement (`ol`) -/
+def Query.stmtWith (km : KindMap) (q : Query) (flip prune : Bool) (fl ol : Option Sql.Expr) : Option Sql.Stmt :=
   if !q.wf then none else
   match kindIds? km q.akinds, kindIds? km q.rkinds, kindIds? km q.bkinds,
         predsE km "n0" false (q.preds .a), predsE km "e0" true (q.preds .r), predsE km "n1" false (q.preds .b) with
@@ -174,10 +175,13 @@ def Query.trWith (km : KindMap) (q : Query) (flip prune : Bool) : Option Sql.Stm
     let joins := if flip then [jb, ja] else [ja, jb]
     let wh : Option Sql.Expr := both pr (kr.map (fun ids => .bin "=" (col "e0" "kind_id") (.anyOf (kindsLit ids))))
     some (.query (.mk false
-      [.mk "s0" none none (Sql.Query.simple (.select false (frameProj (!prune || q.reads .r) (!prune || q.reads .a) (!prune || q.reads .b))
-        [.mk (.table ["edge"] (some "e0")) joins] wh [] none))]
-      (.select false (q.items.map (Item.tr q)) [.mk (.table ["s0"] none) []] none [] none) [] none none))
+      [.mk "s0" none none (.mk false [] (.select false (frameProj (!prune || q.reads .r) (!prune || q.reads .a) (!prune || q.reads .b))
+        [.mk (.table ["edge"] (some "e0")) joins] wh [] none) [] none fl)]
+      (.select false (q.items.map (Item.tr q)) [.mk (.table ["s0"] none) []] none [] none) [] none ol))
   | _, _, _, _, _, _ => none
+
+/-- the statement of a hop query without LIMIT -/
+def Query.trWith (km : KindMap) (q : Query) (flip prune : Bool) : Option Sql.Stmt := q.stmtWith km flip prune none none
 
 /-- what `Translate` emits (optimiser on): the plan's direction decision, else the selectivity balance -/
 def Query.tr (km : KindMap) (q : Query) : Option Sql.Stmt := q.trWith km (q.flipPlan || q.flipSel) true
